@@ -63,7 +63,10 @@ def build():
     findings_witness={'D8': witness('D8'), 'D7': witness('D7')},
     syntactic=[Syntactic('C09/wiring/full_pauses_and_space_resumes', wiring,
                          'service.py registers pause on cacheFull and resume on cacheSpaceAvailable in equal numbers; events.py default handlers keep the two state flags')],
-    bounded=[Bounded('C09/native/relay_quiescence_cross_check', 'replay/relay_native.py',
+    bounded=[Bounded('C09/native/two_thread_schedules', 'replay/cache_sched_native.py', ['--depth', '2', '--only', 'sched-paused-at-quiescence'], ['--depth', '3', '--only', 'sched-paused-at-quiescence'],
+                     'the real _MetricCache under deterministic two-thread schedules (sys.settrace): every history of <= 2 (quick) / 3 (thorough) store / drain_metric calls over 2 metrics x 2 timestamps, with the other thread (writer: 1, 2 or all drains; receiver: one of 4 stores) run at every line step of the traced call at which the cache lock is not held; MAX_CACHE_SIZE in {1,2,3,inf} plus pre-filled caches of 20 with flow control (where cacheFull can fire), all seven strategies',
+                     'schedules at line granularity of cache.py give the concrete interleaving that the lock-invariant / rely-guarantee obligations only refute abstractly (byte-code level races inside one line stay out of reach)'),
+             Bounded('C09/native/relay_quiescence_cross_check', 'replay/relay_native.py',
                      ['--len', '5', '--random', '50', '--only', 'relay-paused-at-quiescence,D8'],
                      ['--len', '6', '--random', '300', '--thorough', '--only', 'relay-paused-at-quiescence,D8'],
                      "relay side: every enabled sequence of <= 5 (quick) / 6 (thorough) events over {arrival, self-metric, connection made / lost / failed, transport paused / resumed, timer round} plus seeded random sequences up to 14 events on the real carbon.client classes with a task.Clock reactor, all timers fired at the end: no run ends with full signalled, no space signal since, and the queue below its low watermark (the known finding D8 excepted)",
